@@ -502,7 +502,17 @@ def main(mod):
         # independent re-check of the compiled Props file and everything it
         # depends on; -o lists the axioms of the whole context
         modname = 'HD.' + mod.PROPS_FILE[:-2]
-        rc_chk, out_chk = sh(f'timeout 1500 coqchk -silent -o -Q theories HD {modname}', cwd=COQ, timeout=1600)
+        # a concurrent check of the same property removes and rebuilds the Props .vo (check_obligations); hold the
+        # same lock while coqchk reads the compiled files, and retry once if it still failed
+        import fcntl
+        for _attempt in (0, 1):
+            with open(os.path.join(COQ, '.props.lock'), 'w') as lk:
+                fcntl.flock(lk, fcntl.LOCK_EX)
+                if _attempt:
+                    coq_make([mod.PROPS_FILE + 'o'])
+                rc_chk, out_chk = sh(f'timeout 1500 coqchk -silent -o -Q theories HD {modname}', cwd=COQ, timeout=1600)
+            if rc_chk == 0:
+                break
         m_chk = re.search(r'CONTEXT SUMMARY.*', out_chk, flags=re.S)
         coqchk_summary = (m_chk.group(0) if m_chk else out_chk[-1500:]).strip()
         ax = re.search(r'\* Axioms:\s*(.*?)\n\s*\n', coqchk_summary + '\n\n', flags=re.S)
